@@ -68,9 +68,9 @@ Proof.
   destruct (rb_solve r); simpl; now rewrite IH.
 Qed.
 
-(* the statistics of a batch as a function of its admitted reactions *)
+(* the statistics of a batch as a function of its kept_inputs reactions *)
 Definition stats_fun (t : Z) (ins : list string) : stats :=
-  let l := admitted OR ins in
+  let l := kept_inputs OR ins in
   mkStats (length ins)
           (count_if (fun s => q_bal (G1 (fresh 0 s))) l) (count_if (fun s => q_app (G1 (fresh 0 s))) l)
           (count_if (fun s => q_sol (G1 (fresh 0 s))) l)
@@ -82,7 +82,7 @@ Theorem run_stats_are_a_function t tmsg ins rows st :
 Proof.
   intros H. unfold run in H. destruct (preprocess OR ins) as [rows0|w] eqn:PP; [|discriminate].
   unfold preprocess in PP. destruct (negb _); [discriminate|].
-  fold (admitted OR ins) in PP. destruct (admitted OR ins) as [|s0 l0] eqn:E; [discriminate|].
+  fold (kept_inputs OR ins) in PP. destruct (kept_inputs OR ins) as [|s0 l0] eqn:E; [discriminate|].
   assert (R0 : rows0 = number 0 (s0 :: l0)) by congruence. subst rows0. clear PP.
   pose proof (stages_are_a_map OR db ban fuel (s0 :: l0)) as SM.
   unfold stages_before_conf in *. cbn [fst] in SM.
@@ -102,12 +102,12 @@ Proof.
   - rewrite SM. apply (count_over_numbered F (conf_success OR t) (F_set_rid OR db ban fuel) (conf_success_rid t)).
 Qed.
 
-Lemma admitted_app a b : admitted OR (a ++ b) = (admitted OR a ++ admitted OR b)%list.
-Proof. unfold admitted. now rewrite map_app, filter_app. Qed.
+Lemma kept_inputs_app a b : kept_inputs OR (a ++ b) = (kept_inputs OR a ++ kept_inputs OR b)%list.
+Proof. unfold kept_inputs. now rewrite map_app, filter_app. Qed.
 
 (* additive over concatenation: the statistics do not depend on how the reactions are split into batches *)
 Theorem stats_fun_additive t a b : stats_fun t (a ++ b) = add_stats (stats_fun t a) (stats_fun t b).
-Proof. unfold stats_fun, add_stats. cbn. rewrite admitted_app, app_length, !count_if_app. reflexivity. Qed.
+Proof. unfold stats_fun, add_stats. cbn. rewrite kept_inputs_app, app_length, !count_if_app. reflexivity. Qed.
 
 Corollary run_stats_additive t tmsg a b ra sa rb sb rab sab :
   run OR db ban fuel t tmsg a = Done (ra, sa) -> run OR db ban fuel t tmsg b = Done (rb, sb) ->
